@@ -41,7 +41,16 @@ def _ok_plain(name: str) -> bool:
     return name not in KEYWORDS and not is_tricky(name)
 
 
-lower_ident = st.from_regex(r"[a-z][a-z0-9_]{0,7}", fullmatch=True).filter(_ok_plain)
+# realistic field names that happen to be attribute names of Python's dict / list / str / object
+PYTHONIC_NAMES = ["values", "items", "keys", "get", "pop", "copy", "update", "clear", "count", "index", "sort", "append",
+                  "format", "join", "split", "real", "imag", "name", "size", "data", "len", "id", "type_", "class_",
+                  "self", "none", "true", "false", "lambda_", "fields", "value", "key", "default_", "setdefault", "fromkeys"]
+lower_ident = st.one_of(
+    st.from_regex(r"[a-z][a-z0-9_]{0,7}", fullmatch=True),
+    st.from_regex(r"[a-z][a-z0-9_]{0,7}", fullmatch=True),
+    st.from_regex(r"[a-z][a-z0-9_]{0,7}", fullmatch=True),
+    st.sampled_from(PYTHONIC_NAMES),
+).filter(_ok_plain)
 pascal_ident = st.from_regex(r"[A-Z][A-Za-z0-9]{0,7}", fullmatch=True).filter(_ok_plain)
 any_ident = st.from_regex(r"[A-Za-z_][A-Za-z0-9_]{0,8}", fullmatch=True).filter(_ok_plain)
 
@@ -101,6 +110,7 @@ class TypeCfg:
     dyn: bool = True
     opt: bool = True
     max_arr: int = 4
+    big_arr: Sequence[int] = ()  # extra array sizes drawn now and then (e.g. 10..13: two-digit element indices)
     min_width: int = 1
     max_width: int = 64
 
@@ -113,6 +123,11 @@ def leaf_types(cfg: TypeCfg, enums: Sequence[str], structs: Sequence[str]) -> st
             st.sampled_from([x for x in BOUNDARY_WIDTHS if cfg.min_width <= x <= cfg.max_width]),
         )
         opts += [w.map(M.U), w.map(M.I)]
+        if cfg.min_width <= 9:
+            # zero-padded spellings the grammar accepts ("u08", "i09"): same type, different text
+            pad = st.integers(max(cfg.min_width, 1), min(9, cfg.max_width))
+            opts.append(st.one_of(w.map(M.U), w.map(M.I), w.map(M.U), w.map(M.I), w.map(M.U), w.map(M.I),
+                                  pad.map(lambda n: M.U(n, f"u0{n}")), pad.map(lambda n: M.I(n, f"i0{n}"))))
     if cfg.floats:
         opts += [st.just(M.F32()), st.just(M.F64())]
     if cfg.strings:
@@ -131,7 +146,10 @@ def types(cfg: TypeCfg, enums: Sequence[str], structs: Sequence[str]) -> st.Sear
     def extend(inner: st.SearchStrategy) -> st.SearchStrategy:
         opts = []
         if cfg.arrays:
-            opts.append(st.builds(M.Arr, inner, st.integers(1, cfg.max_arr)))
+            sizes = st.integers(1, cfg.max_arr)
+            if cfg.big_arr:
+                sizes = st.one_of(sizes, sizes, sizes, sizes, st.sampled_from(list(cfg.big_arr)))
+            opts.append(st.builds(M.Arr, inner, sizes))
         if cfg.dyn:
             opts.append(inner.map(M.Dyn))
         if cfg.opt:
@@ -257,8 +275,10 @@ class ValCfg:
     max_dyn: int = 4
     long_dyn: int = 300
     allow_long: bool = True
+    magic_lengths: bool = True  # 255/256/257, 4092..4097, 8188/8192: block-size boundaries
 
 
+MAGIC_LENGTHS = [255, 256, 257, 4091, 4092, 4093, 4095, 4096, 4097, 8188, 8192]
 ascii_chars = st.characters(min_codepoint=0, max_codepoint=127)
 printable_chars = st.characters(min_codepoint=32, max_codepoint=126)
 
@@ -291,7 +311,12 @@ def value_for(s: M.Schema, t: M.Type, cfg: Optional[ValCfg] = None) -> st.Search
             long = st.integers(cfg.max_str + 1, cfg.long_str).flatmap(
                 lambda n: st.text(alphabet=printable_chars, min_size=n, max_size=n)
             )
-            return st.one_of(short, short, short, short, st.just(""), long)
+            opts = [short] * 8 + [st.just(""), st.just(""), long, long]
+            if cfg.magic_lengths:
+                # block-size boundaries (with and without the 4-byte prefix): cheap to build, no per-character draw
+                opts.append(st.sampled_from(MAGIC_LENGTHS).flatmap(
+                    lambda n: st.sampled_from("az09 ~").map(lambda c: (c + "fcp") * (n // 4) + c * (n % 4))))
+            return st.one_of(*opts)
         return short
     if isinstance(t, M.StructRef):
         return struct_value(s, t.name, cfg)
@@ -304,7 +329,11 @@ def value_for(s: M.Schema, t: M.Type, cfg: Optional[ValCfg] = None) -> st.Search
             long = st.integers(cfg.max_dyn + 1, cfg.long_dyn).flatmap(
                 lambda n: st.lists(inner, min_size=n, max_size=n)
             )
-            return st.one_of(short, short, short, short, st.just([]), long)
+            opts = [short] * 8 + [st.just([]), st.just([]), long, long]
+            if cfg.magic_lengths and isinstance(t.t, (M.U, M.I)) and t.t.n <= 8:
+                opts.append(st.sampled_from(MAGIC_LENGTHS).flatmap(
+                    lambda n: st.tuples(inner, inner).map(lambda ab: [ab[0], ab[1]] * (n // 2) + [ab[0]] * (n % 2))))
+            return st.one_of(*opts)
         return st.one_of(short, st.just([]))
     if isinstance(t, M.Opt):
         return st.one_of(st.none(), value_for(s, t.t, cfg), value_for(s, t.t, cfg))
@@ -352,9 +381,16 @@ def fixed_size_bits(s: M.Schema, t: M.Type) -> Optional[int]:
 
 
 # ------------------------------------------------------------- extension values, impls
-string_body = st.text(
-    alphabet=st.characters(min_codepoint=32, max_codepoint=126, blacklist_characters='"\\'), max_size=8
+# The parser returns the raw text between the quotes, escape sequences included, so a description string may
+# contain backslash pairs as long as the text stays a valid ESCAPED_STRING body: every '"' and every '\\' is the
+# second half of a pair.
+_string_piece = st.one_of(
+    st.characters(min_codepoint=32, max_codepoint=126, blacklist_characters='"\\'),
+    st.characters(min_codepoint=32, max_codepoint=126, blacklist_characters='"\\'),
+    st.characters(min_codepoint=32, max_codepoint=126, blacklist_characters='"\\'),
+    st.sampled_from(['\\"', "\\\\", "\\n", "\\t", "'"]),
 )
+string_body = st.lists(_string_piece, max_size=8).map("".join)
 
 _num_spellings = st.one_of(
     st.integers(-(2**40), 2**40),
